@@ -168,7 +168,8 @@ def gen_history(rng):
             ops.append(("unset", c, k, n))
         else:
             refs = [rng.choice(names + ["ZZ"]) for _ in range(rng.randint(1, 3))]
-            ops.append(("use", c, k, [respell(rng, r) for r in refs]))
+            param = rng.choice([None, None, "pay $" + rng.choice(names).lower() + " now", "costs $5", "100%", "$ZZ", "it's"])
+            ops.append(("use", c, k, [respell(rng, r) for r in refs], param))
     return nconn, ops
 
 
@@ -194,12 +195,12 @@ def run_history(nconn, ops, mutate=None):
             obs.append(None)
             texts.append(None)
         else:
-            _, c, k, refs = o
-            text = "select " + ", ".join(f"${r}" for r in refs)
+            _, c, k, refs, param = o
+            text = "select " + ", ".join(([] if param is None else ["%s"]) + [f"${r}" for r in refs])
             texts.append(text)
             enc_ops.append([2, c, S(text)])
             try:
-                rows = curs[c][k].execute(text).fetchall()
+                rows = curs[c][k].execute(text, None if param is None else (param,)).fetchall()
                 obs.append(("rows", [[fsutil.pyrepr(v) for v in r] for r in rows]))
             except E.ProgrammingError as e:
                 m = MSG.match(e.raw_msg or "")
@@ -217,8 +218,8 @@ def check_histories(ck: Check):
     n_h = 120 if ck.tier == "quick" else 3000
     hists = [gen_history(ck.rng) for _ in range(n_h)]
     # corpus: cross-cursor / cross-connection visibility
-    hists.insert(0, (2, [("set", 0, 0, "A", VALUES[0]), ("use", 0, 1, ["a"]), ("use", 1, 0, ["A"]), ("set", 0, 1, "A", VALUES[2]),
-                         ("use", 0, 0, ["a"]), ("use", 0, 0, ["a"]), ("unset", 0, 1, "A"), ("use", 0, 0, ["a"])]))
+    hists.insert(0, (2, [("set", 0, 0, "A", VALUES[0]), ("use", 0, 1, ["a"], None), ("use", 1, 0, ["A"], None), ("set", 0, 1, "A", VALUES[2]),
+                         ("use", 0, 0, ["a"], None), ("use", 0, 0, ["a"], "pay $a now"), ("unset", 0, 1, "A"), ("use", 0, 0, ["a"], None)]))
     cases, all_obs, reported = [], [], False
     for nconn, ops in hists:
         enc_ops, obs, texts, clean = run_history(nconn, ops)
@@ -234,9 +235,10 @@ def check_histories(ck: Check):
             if o[0] == "unset":
                 del live[o[1]][o[3]]
                 continue
-            refs = o[3]
+            refs, param = o[3], o[4]
             und = next((r for r in refs if r.upper() not in live[o[1]]), None)
-            want = ("undefined", "$" + und.upper()) if und else ("rows", [[fsutil.pyrepr(live[o[1]][r.upper()]) for r in refs]])
+            want = ("undefined", "$" + und.upper()) if und else \
+                ("rows", [([] if param is None else [fsutil.pyrepr(param)]) + [fsutil.pyrepr(live[o[1]][r.upper()]) for r in refs]])
             ck.count("hist:use-undefined" if und else "hist:use-defined")
             if ob != want and not reported:
                 reported = True
@@ -248,7 +250,7 @@ def check_histories(ck: Check):
                 mob = ("undefined", unstr(mres[1]))
             else:
                 try:
-                    rows = clean.cursor().execute(unstr(mres[1])).fetchall()
+                    rows = clean.cursor().execute(unstr(mres[1]), None if o[4] is None else (o[4],)).fetchall()
                     mob = ("rows", [[fsutil.pyrepr(v) for v in r] for r in rows])
                 except Exception as e:  # noqa: BLE001
                     mob = ("exception", type(e).__name__)
